@@ -153,4 +153,199 @@ theorem heik_R0_eq (e a2 r z P Q x : ℝ) (he0 : 0 < e) (hQ1 : 1 ≤ Q) (hQP : Q
   rw [hβ, hX, abs_of_nonneg (sq_nonneg _), Real.sqrt_sq (by linarith)]
   ring
 
+/-- the validity test of line 66 holds on the domain: `G = r² + (1−e) z² − e² a² > 0` -/
+theorem heik_G_pos (e a2 N c s h : ℝ) (he0 : 0 < e) (he1 : e < 1) (hN : 0 < N)
+    (hcs : s * s + c * c = 1) (hNa : N * N * (1 - e * s * s) = a2) (hB : e * N < N + h - e * N) :
+    0 < ((N + h) * c) * ((N + h) * c) + (1 - e) * ((N + h - e * N) * s) * ((N + h - e * N) * s) - e * (a2 - a2 * (1 - e)) := by
+  have h1e : 0 < 1 - e := by linarith
+  have heN : 0 < e * N := mul_pos he0 hN
+  have hc2 : 0 ≤ c * c := mul_self_nonneg c
+  have hs2 : 0 ≤ s * s := mul_self_nonneg s
+  have hG' : ((N + h) * c) * ((N + h) * c) + (1 - e) * ((N + h - e * N) * s) * ((N + h - e * N) * s) - e * (a2 - a2 * (1 - e))
+      = (c * c) * ((N + h) ^ 2 - (e * N) ^ 2) + (1 - e) * (s * s) * ((N + h - e * N) ^ 2 - (e * N) ^ 2) := by
+    rw [← hNa]
+    linear_combination (e ^ 2 * N ^ 2) * hcs
+  have b1 : 0 < (N + h) ^ 2 - (e * N) ^ 2 := by nlinarith
+  have b2 : 0 < (N + h - e * N) ^ 2 - (e * N) ^ 2 := by nlinarith
+  rw [hG']
+  rcases (mul_self_nonneg c).lt_or_eq with hc' | hc'
+  · have t1 := mul_pos hc' b1
+    have t2 := mul_nonneg (mul_nonneg h1e.le hs2) b2.le
+    linarith
+  · have hs1 : s * s = 1 := by linarith
+    rw [← hc', hs1]
+    have := mul_pos h1e b2
+    linarith
+
+/-- **the chain of lines 70-76 returns the foot-point radius** `N c`, for any ellipse and every point whose true
+    coordinates satisfy `N(1−e) + h > e N` (generic reals; `c ≥ 0`) -/
+theorem heik_chain (e a2 N c s h : ℝ) (he0 : 0 < e) (he1 : e < 1) (ha2 : 0 < a2) (hN : 0 < N)
+    (hcs : s * s + c * c = 1) (hNa : N * N * (1 - e * s * s) = a2) (hc : 0 ≤ c) (hB : e * N < N + h - e * N)
+    (r z F G C S P Q : ℝ) (hr : r = (N + h) * c) (hz : z = (N + h - e * N) * s)
+    (hF : F = 54 * (a2 * (1 - e)) * z * z)
+    (hG : G = r * r + (1 - e) * z * z - e * (a2 - a2 * (1 - e)))
+    (hC : C = e * e * F * r * r / (G * G * G))
+    (hS : S = (1 + C + Real.sqrt (C * C + 2 * C)) ^ ((1 : ℝ) / 3))
+    (hP : P = F / (3 * ((G * (S + 1 / S + 1)) * (G * (S + 1 / S + 1)))))
+    (hQ : Q = Real.sqrt (1 + 2 * (e * e) * P)) :
+    (-P) * e * r / (1 + Q) + Real.sqrt |1 / 2 * a2 * (1 + 1 / Q) - P * (1 - e) * z * z / (Q * (1 + Q)) - 1 / 2 * P * r * r| = N * c := by
+  have h1e : 0 < 1 - e := by linarith
+  have heN : 0 < e * N := mul_pos he0 hN
+  have hA : 0 < N + h := by linarith
+  have hr0 : 0 ≤ r := by rw [hr]; exact mul_nonneg hA.le hc
+  have hF0 : 0 ≤ F := by
+    rw [hF]
+    have : 54 * (a2 * (1 - e)) * z * z = 54 * (a2 * (1 - e)) * (z * z) := by ring
+    rw [this]; exact mul_nonneg (by positivity) (mul_self_nonneg z)
+  have hGpos : 0 < G := by
+    rw [hG, hr, hz]; exact heik_G_pos e a2 N c s h he0 he1 hN hcs hNa hB
+  have hC0 : 0 ≤ C := by
+    rw [hC]
+    apply div_nonneg _ (by positivity)
+    have : e * e * F * r * r = (e * e) * F * (r * r) := by ring
+    rw [this]; exact mul_nonneg (mul_nonneg (by positivity) hF0) (mul_self_nonneg r)
+  obtain ⟨hSpos, hcub⟩ := cardano_sigma C hC0
+  rw [← hS] at hSpos hcub
+  have hσ : 0 < S + 1 / S + 1 := by positivity
+  have hP0 : 0 ≤ P := by rw [hP]; exact div_nonneg hF0 (by positivity)
+  have hsext := heik_P_sextic e a2 (r * r) (z * z) G (S + 1 / S + 1) F P hGpos hσ (by rw [hF]; ring)
+    (by rw [hcub, hC]; ring) hP
+  have hrad : 0 ≤ 1 + 2 * (e * e) * P := by positivity
+  have hQQ : Q * Q = 1 + 2 * (e * e) * P := by rw [hQ]; exact Real.mul_self_sqrt hrad
+  have hQ1 : 1 ≤ Q := by
+    rw [hQ, Real.one_le_sqrt]
+    have := mul_nonneg (mul_self_nonneg e) hP0
+    linarith
+  -- the sextic relation in Q
+  have hq : (Q ^ 2 - 1) * (r ^ 2 * (Q ^ 2 - 1) + (r ^ 2 + (1 - e) * (z * z) - e ^ 2 * a2)) ^ 2 - 4 * e ^ 2 * (a2 * (1 - e)) * (z * z) = 0 := by
+    have e1 : Q ^ 2 - 1 = 2 * (e * e) * P := by rw [pow_two, hQQ]; ring
+    have e2 : r ^ 2 + (1 - e) * (z * z) - e ^ 2 * a2 = G := by rw [hG]; ring
+    rw [e1, e2]
+    linear_combination hsext
+  have hquart := foot_quartic e a2 N c s h hcs hNa
+  have hfac := heik_factor e a2 r (z * z) (N * c) Q
+  have hneg := heik_other_factor_neg e a2 N c s h Q he0 he1 hN hcs hNa hB hQ1
+  have hzero : q1 e a2 r (z * z) (N * c) Q = 0 := by
+    have hprod : q1 e a2 r (z * z) (N * c) Q * q1 e a2 r (z * z) (N * c) (-Q) = 0 := by
+      rw [hfac, hq]
+      have : ((N * c) ^ 2 - a2) * (r - e * (N * c)) ^ 2 + (1 - e) * (z * z) * (N * c) ^ 2 = 0 := by
+        rw [hr, hz]; linear_combination hquart
+      rw [this]; ring
+    rcases mul_eq_zero.1 hprod with h0 | h0
+    · exact h0
+    · exfalso
+      have : z * z = ((N + h - e * N) * s) ^ 2 := by rw [hz]; ring
+      rw [hr, this] at h0
+      linarith
+  exact heik_R0_eq e a2 r z P Q (N * c) he0 hQ1 hQQ (mul_nonneg hN.le hc) hr0 hzero
+
+/-! ## 12. the closed-form inverse of geocoords.py inverts the forward map -/
+
+@[simp] theorem pow_real (x y : ℝ) : GeoScalar.pow x y = x ^ y := rfl
+
+/-- the squared eccentricity of the module's constants is small (6.69…e-3) -/
+theorem cE2_lt_small : (cE2 : ℝ) < 1 / 100 := by
+  simp only [cE2, cA2, cB2, cB, cA, cF, ofNat_real]; norm_num
+
+/-- the height domain of the exactness theorem: everything above `−a(1 − 2e²)` (≈ −6 292 741 m; the points closer to
+    the centre than that are within ~85 km of it and are also where line 66 starts to reject points) -/
+theorem domain_B (lat h : ℝ) (hh : -((cA : ℝ) * (1 - 2 * cE2)) < h) :
+    cE2 * primeVertical lat < primeVertical lat + h - cE2 * primeVertical lat := by
+  have hN := primeVertical_ge lat
+  have he := cE2_lt_small
+  have : 0 ≤ (primeVertical lat - cA) * (1 - 2 * cE2) := mul_nonneg (by linarith) (by linarith)
+  nlinarith
+
+/-- **lines 70-76 return the radius of the foot point** `N cos φ`, for the module's constants -/
+theorem heikR0_exact (lat h : ℝ) (hl1 : -90 ≤ lat) (hl2 : lat ≤ 90) (hh : -((cA : ℝ) * (1 - 2 * cE2)) < h) :
+    heikR0 ((primeVertical lat + h) * Real.cos (lat * (Real.pi / 180)))
+        ((primeVertical lat + h - cE2 * primeVertical lat) * Real.sin (lat * (Real.pi / 180)))
+      = primeVertical lat * Real.cos (lat * (Real.pi / 180)) := by
+  have hNa := primeVertical_sq lat
+  have hB := domain_B lat h hh
+  simp only [heikR0, heikQ, heikP, heikS, heikC, heikG, heikF, cE4, cOME2, ofNat_real, sqrt_real, abs_real, pow_real,
+    Nat.cast_ofNat, Nat.cast_one]
+  rw [cB2_eq]
+  exact heik_chain cE2 cA2 (primeVertical lat) _ _ h cE2_pos cE2_lt_one cA2_pos (primeVertical_pos lat)
+    (sin_cos_unit _) hNa (cos_lat_nonneg lat hl1 hl2) hB _ _ _ _ _ _ _ _ rfl rfl rfl rfl rfl rfl rfl rfl
+
+theorem tail_U (B c s : ℝ) (hB : 0 < B) (hcs : s * s + c * c = 1) :
+    Real.sqrt (B * c * (B * c) + B * s * (B * s)) = B := by
+  have : B * c * (B * c) + B * s * (B * s) = B * B := by linear_combination (B * B) * hcs
+  rw [this, Real.sqrt_mul_self hB.le]
+
+theorem tail_V (B c s e N a : ℝ) (hB : 0 < B) (hN : 0 < N) (ha : 0 < a) (hcs : s * s + c * c = 1)
+    (hNa : N * N * (1 - e * s * s) = a * a) :
+    Real.sqrt (B * c * (B * c) + (1 - e) * (B * s) * (B * s)) = B * a / N := by
+  have hpos : 0 < B * a / N := by positivity
+  have : B * c * (B * c) + (1 - e) * (B * s) * (B * s) = (B * a / N) * (B * a / N) := by
+    rw [div_mul_div_comm, eq_div_iff (by positivity)]
+    linear_combination (B ^ 2 * N ^ 2) * hcs + (B ^ 2) * hNa
+  rw [this, Real.sqrt_mul_self hpos.le]
+
+/-- **exactness of the closed-form inverse, latitude and height** (and the longitude as the code computes it): for every
+    latitude in [−90, 90], every longitude and every height above −a(1−2e²), lines 57-92 applied to the forward image return
+    the latitude and the height exactly. -/
+theorem inverse_lat_height_exact (lat lon h : ℝ) (hl1 : -90 ≤ lat) (hl2 : lat ≤ 90) (hh : -((cA : ℝ) * (1 - 2 * cE2)) < h) :
+    ecfToGeodeticLL (geodeticToEcfLL lat lon h) =
+      ⟨lat, Complex.arg ⟨(geodeticToEcfLL lat lon h).x, (geodeticToEcfLL lat lon h).y⟩ * (180 / Real.pi), h⟩ := by
+  have hNa := primeVertical_sq lat
+  have hNpos := primeVertical_pos lat
+  have hBd := domain_B lat h hh
+  have he0 := cE2_pos
+  have he1 := cE2_lt_one
+  have hA := cA_pos
+  have hcp := cos_lat_nonneg lat hl1 hl2
+  have hcs := sin_cos_unit (lat * (Real.pi / 180))
+  have hl := sin_cos_unit (lon * (Real.pi / 180))
+  have hR0 := heikR0_exact lat h hl1 hl2 hh
+  have hφ : lat * (Real.pi / 180) ∈ Set.Ioc (-Real.pi) Real.pi := by
+    have := lat_rad_mem lat hl1 hl2
+    have hpi := Real.pi_pos
+    exact ⟨by linarith [this.1], by linarith [this.2]⟩
+  have hApos : 0 < primeVertical lat + h := by nlinarith [mul_pos he0 hNpos]
+  have harg := arg_polar _ _ hApos hφ
+  rw [geodeticToEcfLL_eq]
+  generalize primeVertical lat = N at *
+  generalize Real.sin (lat * (Real.pi / 180)) = sp at *
+  generalize Real.cos (lat * (Real.pi / 180)) = cp at *
+  generalize Real.sin (lon * (Real.pi / 180)) = sl at *
+  generalize Real.cos (lon * (Real.pi / 180)) = cl at *
+  have hBpos : 0 < N + h - cE2 * N := by nlinarith [mul_pos he0 hNpos]
+  have hBne := hBpos.ne'
+  have hNne := hNpos.ne'
+  have hAne := hA.ne'
+  have hr : Real.sqrt ((N + h) * cp * cl * ((N + h) * cp * cl) + (N + h) * cp * sl * ((N + h) * cp * sl)) = (N + h) * cp := by
+    have : (N + h) * cp * cl * ((N + h) * cp * cl) + (N + h) * cp * sl * ((N + h) * cp * sl) = ((N + h) * cp) * ((N + h) * cp) := by
+      linear_combination (((N + h) * cp) * ((N + h) * cp)) * hl
+    rw [this, Real.sqrt_mul_self (mul_nonneg hApos.le hcp)]
+  rw [V3.eq_iff]
+  simp only [ecfToGeodeticLL, rad2deg, atan2_real, sqrt_real, ofNat_real, pi_real, Nat.cast_ofNat, Nat.cast_one, cOME2]
+  rw [hr, hR0]
+  have hT : (N + h) * cp - cE2 * (N * cp) = (N + h - cE2 * N) * cp := by ring
+  rw [hT]
+  have hNa' : N * N * (1 - cE2 * sp * sp) = cA * cA := by unfold cA2 at hNa; exact hNa
+  rw [tail_U _ _ _ hBpos hcs, tail_V _ _ _ _ N cA hBpos hNpos hA hcs hNa']
+  have hb : (cB2 : ℝ) = cA * cA * (1 - cE2) := by have := cB2_eq; unfold cA2 at this; exact this
+  have h1e : (1 : ℝ) - cE2 ≠ 0 := by linarith
+  generalize hBdef : N + h - cE2 * N = B at *
+  have hfrac : (cB2 : ℝ) / (cA * (B * cA / N)) = (1 - cE2) * N / B := by
+    rw [hb]; field_simp
+  refine ⟨?_, trivial, ?_⟩
+  · -- latitude
+    have hz0 : (cB2 : ℝ) * (B * sp) / (cA * (B * cA / N)) = (1 - cE2) * N * sp := by
+      have : (cB2 : ℝ) * (B * sp) / (cA * (B * cA / N)) = (cB2 / (cA * (B * cA / N))) * (B * sp) := by ring
+      rw [this, hfrac]; field_simp
+    have hE : (cEB2 : ℝ) * ((1 - cE2) * N * sp) = cE2 * N * sp := by
+      unfold cEB2 cA2; rw [hb]; field_simp; ring
+    have hz : B * sp + cEB2 * (cB2 * (B * sp) / (cA * (B * cA / N))) = (N + h) * sp := by
+      rw [hz0, hE, ← hBdef]; ring
+    rw [hz, harg]
+    have hpi := Real.pi_ne_zero
+    field_simp
+  · -- height
+    rw [hfrac]
+    field_simp
+    rw [← hBdef]; ring
+
 end Sarpy.Props.C12
